@@ -357,6 +357,15 @@ def main(argv=None):
         print(f"SOLVER-DISAGREEMENT property={prop}: cvc5 found a model for {cross['disagree']} VC(s) that z3 proved")
     samples = [{"id": o["id"], "kind": o["kind"], "vcs": o["vcs"], "status": o["status"], "seconds": o["seconds"]}
                for o in obligations[:6]]
+    # an `assumed` contract that carries `implied_by` (obligation ids) is the call-site VIEW of a contract verified elsewhere in the
+    # pack: when every named obligation is proved in this run (and none of them is a bounded one) it is reported as a view, not as
+    # an assumption; in every other case it stays in `assumed_contracts` (additive: packs without the attribute are unaffected)
+    implied_views = {}
+    _proved = {o["id"] for o in obligations if o.get("status") == "proved" and not is_bounded(o)}
+    for c_ in assumed:
+        need = list(getattr(c_, "implied_by", None) or [])
+        if need and all(n_ in _proved for n_ in need):
+            implied_views[c_.target] = need
     evidence = {
         "property_id": prop, "tier": tier, "seed": seed, "level": "proof",
         "coverage": {
@@ -371,8 +380,9 @@ def main(argv=None):
                 "CPython ast module"],
             "samples": samples,
             "functions_under_contract": fn_infos,
-            "assumed_contracts": sorted(({c.target for c in assumed} | assumed_used | set(getattr(pack, "ASSUMED_MODELS", []))) - verified_assumed),
+            "assumed_contracts": sorted(({c.target for c in assumed} | assumed_used | set(getattr(pack, "ASSUMED_MODELS", []))) - verified_assumed - set(implied_views)),
             **({"call_site_contracts_verified_in_this_run": sorted(verified_assumed)} if verified_assumed else {}),
+            **({"call_site_views_of_verified_contracts": implied_views} if implied_views else {}),
             "bounded_functions_run_in_thorough_tier_only": skipped_bounded,
             "by_backend_vcs": by_backend,
             "second_solver_cross_check": cross,
